@@ -118,8 +118,13 @@ class Extractor:
 
     # ---- fixtures ------------------------------------------------------------------------
     def params(self, fn):
+        """the parameters that request a fixture: pytest ignores parameters that have a default value"""
         a = fn.args
-        return list(a.posonlyargs) + list(a.args) + list(a.kwonlyargs)
+        pos = list(a.posonlyargs) + list(a.args)
+        nd = len(pos) - len(a.defaults)
+        out = [p for i, p in enumerate(pos) if i < nd]
+        out += [p for p, d in zip(a.kwonlyargs, a.kw_defaults) if d is None]
+        return sorted(out, key=lambda p: (p.lineno, p.col_offset))
 
     def first_yield(self, fn):
         """first yield / yield from in source order inside fn's own scope"""
